@@ -275,9 +275,14 @@ class H11(_Harness):
         okj = snapshot(root) == before and all(c.endswith('.json') and any(c.startswith(f + '.') for f in list(files) + list(junk)) for c in created) \
             and all(w in created for w in want)
         res.append(("--json creates only files named <pel file>.<entry id>.json in the output directory", okj, dict(created=created, want=want)))
-        # --delete E
+        # --delete E; a second top-level file carries the same id in its name (what an earlier -j without -o leaves
+        # behind): at most ONE of them may go
         victim = sorted(files)[0]
         eid = "%08X" % int.from_bytes(files[victim][44:48], 'big')
+        if rng.random() < 0.6:
+            with open(os.path.join(root, "%s.%s.json" % (victim, eid)), 'w') as fh:
+                fh.write("{}")
+            before = snapshot(root)
         r = run_cli(['-p', root, '-d', eid])
         after = snapshot(root)
         gone = sorted(set(before) - set(after))
